@@ -133,3 +133,15 @@ Definition parse_ts_local (f : tsfmt) (s : bytes) : option Z :=
     | _, _, _ => None
     end
   end.
+
+(* the text is exactly what the format itself writes for the instant read from it - chrono reads leniently (leading blanks,
+   signs, unpadded numbers), the logger writes padded numbers only; a leap second (":60") is read as second 59 of the
+   same minute and written as 60 again *)
+Definition canonical_ts (f : tsfmt) (s : bytes) : bool :=
+  match parse_ts_local f s with
+  | Some l =>
+    let c := civil_of l in
+    beq (format_ts f c) s
+    || ((cs c =? 59)%Z && beq (format_ts f {| cy := cy c; cmo := cmo c; cd := cd c; ch := ch c; cmi := cmi c; cs := 60 |}) s)
+  | None => false
+  end.
